@@ -157,7 +157,11 @@ Proof. exact C11Proofs.fapi2_enforced. Qed.
 Print Assumptions fapi2_enforced.
 
 (* ---- sender constraining: the grants that write a new grant session (client_credentials,
-        authorization_code, CIBA; the model answers unsupported_grant_type for the others) ---- *)
+        authorization_code, jwt-bearer, CIBA; the model answers unsupported_grant_type for implicit).
+        A requirement of the server binds every request, the anonymous jwt-bearer request included; a
+        requirement registered for a client binds the requests that name this client - a jwt-bearer
+        request that names nobody is served on behalf of the anonymous client (where the embedder did
+        not set WithJWTBearerGrantClientAuthnRequired), which has no registration. ---- *)
 Theorem dpop_required_enforced : forall p opts cfg statics, build p opts = Some cfg ->
   forall st n g r, In WithDPoPRequired opts -> g <> GRefreshToken -> b_dpop (t_bind r) = None ->
   xrefused (snd (step_g (mkWorld cfg statics) st n (OpToken g r))).
@@ -166,6 +170,7 @@ Print Assumptions dpop_required_enforced.
 
 Theorem client_dpop_required_enforced : forall cfg statics st n g r, cf_dpop_enabled cfg = true -> g <> GRefreshToken ->
   (forall c, registered (mkWorld cfg statics) st c -> c_id c = cr_id (t_cred r) -> c_dpop_required c = true) ->
+  (g = GJwtBearer -> cr_id (t_cred r) <> 0 \/ cf_jwt_bearer_authn_required cfg = true) ->
   b_dpop (t_bind r) = None ->
   xrefused (snd (step_g (mkWorld cfg statics) st n (OpToken g r))).
 Proof. exact C11Proofs.client_dpop_required_enforced. Qed.
@@ -179,6 +184,7 @@ Print Assumptions tls_binding_required_enforced.
 
 Theorem client_tls_required_enforced : forall cfg statics st n g r, cf_tls_binding_enabled cfg = true -> g <> GRefreshToken ->
   (forall c, registered (mkWorld cfg statics) st c -> c_id c = cr_id (t_cred r) -> c_tls_required c = true) ->
+  (g = GJwtBearer -> cr_id (t_cred r) <> 0 \/ cf_jwt_bearer_authn_required cfg = true) ->
   b_cert (t_bind r) = 0 ->
   xrefused (snd (step_g (mkWorld cfg statics) st n (OpToken g r))).
 Proof. exact C11Proofs.client_tls_required_enforced. Qed.
